@@ -5,7 +5,7 @@
    execution after every action; `no_err err_Cxx m` = the monitor reported no error of this property's class;
    `no_raise ls` = no request ended in an exception. *)
 From Coq Require Import ZArith List Bool.
-From CS Require RevConv RevBridge4 RevolveRun Refuted DiskRun DiskBridge3.
+From CS Require Ops RevConv RevBridge4 RevolveRun Refuted DiskRun DiskBridge3 HRevRun.
 From CS Require Import Actions NAdvance Multistage Exec Sched RunFacts Projections BasicInv MultistageRun AllocTotal TLBridge MixBridge.
 Import ListNotations.
 Open Scope Z_scope.
@@ -89,6 +89,18 @@ Proof.
   exists o0, m, ls. split; [exact E|]. split; [apply (DiskRun.leftover_no_err _ m Hm); intros []|exact Hl].
 Qed.
 Print Assumptions C02_periodic_disk_revolve.
+
+(* HRevolve (two levels): every N, every RAM count >= 1, any disk count and cost vector for which the constructor returns (its
+   dynamic program is not proved total); budgets RAM = snapshots_in_ram, DISK unbounded (the DISK budget itself: C03_hrevolve_refuted).
+   As for DiskRevolve the only verdict other than "no error" is E_leftover at the final EndReverse (D8) *)
+Theorem C02_hrevolve : forall (N ram disk uf ub wd rd : Z) (L : list Ops.op) (k : nat), 1 <= N -> 1 <= ram ->
+  RevConv.sequence RevConv.KHRevolve N ram disk uf ub wd rd = Ok L ->
+  exists o0 m ls, run_case (PRev RevConv.KHRevolve N ram disk uf ub wd rd) (DiskRun.disk_xparams N ram) (repeat Next k) = Ok (o0, m, ls) /\ no_err err_C02 m /\ no_raise ls.
+Proof.
+  intros N ram disk uf ub wd rd L k H1 H2 HL. destruct (HRevRun.hrevolve_run N ram disk uf ub wd rd L k H1 H2 HL) as (o0 & m & ls & E & Hl & Hm).
+  exists o0, m, ls. split; [exact E|]. split; [apply (DiskRun.leftover_no_err _ m Hm); intros []|exact Hl].
+Qed.
+Print Assumptions C02_hrevolve.
 
 (* completeness (Multistage): EndReverse is emitted within 6 * TC N S + 1 requests, with no error and no exception on the way, and by then the reference executor has carried out exactly TC N S forward steps *)
 Module M_C02_multistage_terminates.
@@ -183,6 +195,28 @@ Theorem C02_periodic_terminates :
 Proof. exact (@DiskRun.periodic_terminates). Qed.
 Print Assumptions C02_periodic_terminates.
 End M_C02_periodic_terminates.
+
+(* completeness (HRevolve, when the constructor returns): the same *)
+Module M_C02_hrevolve_terminates.
+Import HRevRun.
+Theorem C02_hrevolve_terminates :
+  forall (N ram disk uf ub wd rd : Z) (L : list Ops.op),
+         1 <= N ->
+         1 <= ram ->
+         RevConv.sequence RevConv.KHRevolve N ram disk uf ub wd rd = Actions.Ok L ->
+         exists K : nat,
+           forall k : nat,
+           (K <= k)%nat ->
+           let
+           '(s', m, ls) :=
+            Sched.run_ops (DiskRun.disk_xparams N ram)
+              {|
+                Sched.ob := Sched.ORevF RevConv.KHRevolve N ram disk (RevConv.init_r L); Sched.started := false
+              |} Sched.mon0 (repeat Sched.Next k) in
+            RunFacts.no_raise ls /\ DiskBridge3.leftover_or_ok m /\ Sched.is_exhausted s' = true.
+Proof. exact (@HRevRun.hrevolve_terminates). Qed.
+Print Assumptions C02_hrevolve_terminates.
+End M_C02_hrevolve_terminates.
 
 (* completeness (Mixed, both planner paths): within N (N + 3) + N + 2 requests the schedule is exhausted (EndReverse has been emitted, by C09_flags), and by then exactly C N S forward steps have been executed *)
 Module M_C02_mixed_terminates.
